@@ -37,6 +37,8 @@ func main() {
 			return runC12(rec, i, seed, false)
 		case "C12/selfpipe":
 			return runC12(rec, i, seed, true)
+		case "C12/selfarg":
+			return runC12Mode(rec, i, seed, false, true)
 		}
 		rec.Inconclusive("unknown prop/mode " + key)
 		return true
@@ -55,7 +57,7 @@ func main() {
 			// violation, deadlock or watchdog: goroutines / locks may be left
 			// behind, so this process must not run further cases.
 			flushSiteHistogram(rec)
-			if cfg.Mode == "selfpipe" || i+1 >= cfg.Start+cfg.Count {
+			if cfg.Mode == "selfpipe" || cfg.Mode == "selfarg" || i+1 >= cfg.Start+cfg.Count {
 				// deterministic scenarios of a known finding: resume in a fresh process
 				rec.AbortBatch(i + 1)
 			}
